@@ -255,6 +255,17 @@ type Target struct {
 	// CallTrace (calltrace.go): call expression (source text) -> marker appended to the trace
 	// variable `tr` by the statement that evaluates the call.
 	CallTrace map[string]string
+	// SelArms (C11 exit targets, go2v/c11targets.go): opt-in translation of `select` statements.
+	// Go source text of a comm clause's communication (`<-ctx.Done()`, `ch <- v`, `v := <-ch`) ->
+	// Gallina bool "this clause is the one that runs".  Clauses are tried in source order; a
+	// `default` clause (or, without one, SelElse = "no listed clause": blocked for ever) ends the
+	// chain.  A comm clause without an entry is a translation failure.
+	SelArms map[string]string
+	SelElse string
+	// KeepRets: an SHint must not swallow a `return`: a statement matched by an SHint that
+	// contains a return statement is a translation failure (an early return added inside a
+	// dropped logging/statistics block would otherwise be invisible).
+	KeepRets bool
 }
 
 type fnctx struct {
@@ -521,6 +532,9 @@ func (c *fnctx) stmts(list []ast.Stmt, rest string) string {
 		failf("%s: inline-closure hint on a statement that is not a call with one parameterless func literal: %q", c.t.pos(s), stext)
 	}
 	if ok {
+		if c.tg.KeepRets {
+			c.checkNoReturnInside(s) // c11targets.go
+		}
 		if pre == "" {
 			return tail()
 		}
@@ -633,7 +647,11 @@ func (c *fnctx) stmts(list []ast.Stmt, rest string) string {
 			if !ok {
 				failf("%s: unsupported if init %q", c.t.pos(s), c.t.src(s))
 			}
-			c.checkNoShadow(id, list[1:])
+			if c.tg.KeepRets {
+				c.checkNoCaptureSel(id, list[1:]) // c11targets.go: fields and re-declarations are not captures
+			} else {
+				c.checkNoShadow(id, list[1:])
+			}
 			name := coqIdent(id.Name)
 			if r, ok := c.tg.Renames[id.Name]; ok {
 				name = r
@@ -743,6 +761,10 @@ func (c *fnctx) stmts(list []ast.Stmt, rest string) string {
 		return out
 	case *ast.BlockStmt:
 		return c.stmts(append(append([]ast.Stmt{}, x.List...), list[1:]...), rest)
+	case *ast.SelectStmt:
+		if c.tg.SelArms != nil {
+			return c.selectStmt(x, list, rest) // c11targets.go
+		}
 	}
 	failf("%s: unsupported statement %q in %s", c.t.pos(s), c.t.src(s), c.tg.Func)
 	return ""
@@ -914,7 +936,12 @@ func (t *translator) emitFunc(tg *Target, w *bytes.Buffer) {
 	}
 	ast.Inspect(scope, func(n ast.Node) bool {
 		switch n.(type) {
-		case *ast.ForStmt, *ast.RangeStmt, *ast.GoStmt, *ast.DeferStmt, *ast.SelectStmt, *ast.SendStmt:
+		case *ast.SelectStmt, *ast.SendStmt:
+			if tg.SelArms != nil {
+				return true // opt-in: select statements as a chain of hinted clauses (c11targets.go)
+			}
+			failf("%s: %s contains a loop/go/defer/select/send: outside the translated subset", t.pos(n), tg.Func)
+		case *ast.ForStmt, *ast.RangeStmt, *ast.GoStmt, *ast.DeferStmt:
 			failf("%s: %s contains a loop/go/defer/select/send: outside the translated subset", t.pos(n), tg.Func)
 		}
 		return true
@@ -996,6 +1023,15 @@ func (t *translator) emitFunc(tg *Target, w *bytes.Buffer) {
 	}
 	for _, k := range sortedKeys(tg.CallTrace) {
 		fmt.Fprintf(w, "   traced call: %s  =>  the statement that evaluates it appends %s to tr\n", k, tg.CallTrace[k])
+	}
+	for _, k := range sortedKeys(tg.SelArms) {
+		fmt.Fprintf(w, "   select clause: case %s  =>  runs iff %s\n", k, tg.SelArms[k])
+	}
+	if tg.SelArms != nil && tg.SelElse != "" {
+		fmt.Fprintf(w, "   select without default, no listed clause runs  =>  %s\n", tg.SelElse)
+	}
+	if tg.KeepRets {
+		fmt.Fprintf(w, "   no statement replaced by a stmt-hint contains a return\n")
 	}
 	keys := []string{}
 	for k := range tg.Hints {
